@@ -92,7 +92,7 @@ def worker(case):
     t = n.top_instance
     if ad.get("top") and (t is None or t.reference is None or (t.reference.library.name, t.reference.name) != tuple(ad["top"])):
         probs.append(("wrong-top:%s:%s" % (tag, "+".join(feature)), "design selects %s" % (ad["top"],)))
-    for c, dd in wf.wf_netlist(n):
+    for c, dd in wf.wf_netlist(n) + wf.shared_metadata(n):
         probs.append(("malformed-netlist:%s:%s" % (c, tag), dd))
     return {"key": key, "nontrivial": bool(feature) or kind != "base", "outcome": "ok", "problems": probs, "transitions": 1}
 
@@ -123,7 +123,7 @@ def bundled(case):
     d = canon.diff(exp, got)
     if d:
         probs.append(("parsed-structure-differs:%s:bundled:%s" % (d[0], fname), d[1][:400]))
-    for c, dd in wf.wf_netlist(n):
+    for c, dd in wf.wf_netlist(n) + wf.shared_metadata(n):
         probs.append(("malformed-netlist:%s:bundled:%s" % (c, fname), dd))
     return {"key": key, "nontrivial": True, "outcome": "ok", "problems": probs, "transitions": 1}
 
